@@ -214,8 +214,9 @@ impl RunLengthEncoding {
         cursor.read_exact(&mut buf)?;
         let run_count = u64::from_le_bytes(buf) as usize;
 
-        // Read runs
-        let mut runs = Vec::with_capacity(run_count);
+        // Read runs. The count comes from the input: reserve no more than the input can hold.
+        let max_runs = bytes.len().saturating_sub(8) / 16;
+        let mut runs = Vec::with_capacity(run_count.min(max_runs));
         for _ in 0..run_count {
             cursor.read_exact(&mut buf)?;
             let value = u64::from_le_bytes(buf);
@@ -418,6 +419,19 @@ impl RunLengthAnalyzer {
 #[cfg(test)]
 mod tests {
     use super::*;
+
+    #[test]
+    fn test_from_bytes_rejects_oversized_run_count() {
+        // A run count far beyond what the input holds is an error, not a huge reservation.
+        for count in [1u64 << 60, 1 << 40, u64::MAX, 3] {
+            let mut bytes = count.to_le_bytes().to_vec();
+            bytes.extend_from_slice(&[0u8; 16]);
+            assert!(RunLengthEncoding::from_bytes(&bytes).is_err());
+        }
+        let encoded = RunLengthEncoding::encode(&[7, 7, 7, 9]);
+        let restored = RunLengthEncoding::from_bytes(&encoded.to_bytes()).unwrap();
+        assert_eq!(restored.decode(), vec![7, 7, 7, 9]);
+    }
 
     #[test]
     fn test_encode_decode_basic() {
